@@ -372,9 +372,32 @@ theorem syncGo_ok {P : Params} (hP : P.ans = serialAns) (hc : CodecOk P.codec) (
         simp only [hmw', Bool.not_false, if_true]
         exact ⟨s, g, W, rfl, h, Frame.refl s g, Or.inr hmw'⟩
 
+theorem syncDrain_ok {P : Params} (hP : P.ans = serialAns) (hc : CodecOk P.codec) (hB : P.B < 2 ^ 24)
+    {s : Proc} {g : Ghost} {W : WSt} (h : PInv P s g 0 W) :
+    ∃ s' g' W', syncDrain P s = .ok s' ∧ PInv P s' g' 0 W' ∧ Frame s s' g g' ∧ (s'.backlog = 0 ∨ mustWait s' = false) :=
+  syncGo_ok hP hc hB _ s g W h (Nat.lt_succ_self _)
+
+/-- the `get_status` call at the end of `sync` answers 0 under the invariant (no callback fails on the healthy pool) and
+changes nothing but the pool's call history -/
+theorem PInv.status {P : Params} (hP : P.ans = serialAns) {s : Proc} {g : Ghost} {held : Nat} {W : WSt} (h : PInv P s g held W) :
+    (poolStatus P s.pool).2 = 0 ∧ PInv P { s with pool := (poolStatus P s.pool).1 } g held W := by
+  obtain ⟨h0, hp⟩ := poolStatus_ok P hP s.pool g.items h.back.pool
+  exact ⟨h0, ⟨{ h.back with pool := hp }, h.acct, h.finNoPend⟩⟩
+
+/-- **bridge**: where the invariant holds (healthy pool), the current `sync` is the drain followed by a status call that
+answers 0 — so everything proved about the drain carries over -/
+theorem sync_eq_drain {P : Params} (hP : P.ans = serialAns) {s s1 : Proc} {g : Ghost} {W : WSt}
+    (hd : syncDrain P s = .ok s1) (h1 : PInv P s1 g 0 W) :
+    sync P s = .ok { s1 with pool := (poolStatus P s1.pool).1 } := by
+  unfold sync
+  rw [hd]
+  simp only [(h1.status hP).1, ne_eq, not_true_eq_false, if_false]
+
 theorem sync_ok {P : Params} (hP : P.ans = serialAns) (hc : CodecOk P.codec) (hB : P.B < 2 ^ 24)
     {s : Proc} {g : Ghost} {W : WSt} (h : PInv P s g 0 W) :
-    ∃ s' g' W', sync P s = .ok s' ∧ PInv P s' g' 0 W' ∧ Frame s s' g g' ∧ (s'.backlog = 0 ∨ mustWait s' = false) :=
-  syncGo_ok hP hc hB _ s g W h (Nat.lt_succ_self _)
+    ∃ s' g' W', sync P s = .ok s' ∧ PInv P s' g' 0 W' ∧ Frame s s' g g' ∧ (s'.backlog = 0 ∨ mustWait s' = false) := by
+  obtain ⟨s1, g1, W1, hd, h1, fr, hpost⟩ := syncDrain_ok hP hc hB h
+  refine ⟨_, g1, W1, sync_eq_drain hP hd h1, (h1.status hP).2, ?_, hpost⟩
+  exact ⟨fr.fe, fr.maxBacklog, fr.inodes, fr.front, fr.fin, fr.gfe, fr.pendNil⟩
 
 end Sqfs.BlockProc
